@@ -248,7 +248,8 @@ Section HDR.
         { left; reflexivity. }
         { reflexivity. }
         exists st2, pf, dv, wl'. split.
-        { rewrite <- !app_assoc. rewrite Hg1. exact Hg2. }
+        { change (if hm then OVstemhm else OVstem) with (stem_op true hm).
+          rewrite <- !app_assoc. rewrite Hg1. exact Hg2. }
         split; [exact Hat2|].
         cbn [p_stem p_hs p_vs p_cmds p_px p_py p_moved p_width p_wset] in *.
         repeat split; auto.
